@@ -20,6 +20,11 @@ CLAIMS = {
         "Trusted: symx interception layer, z3, exp2 lemmas. Allelic harness: log2 from an 8-value grid and purity concrete (none/0.3/0.6/0.95) because absolute*baf under round() is nonlinear. Known finding D9 (ploidy 1 non-monotone) is listed in known_findings.json.",
         "DESIGN.md 4/C02",
     ),
+    "C08": (
+        "The real tabio writers and readers (tab, bed3, bed4, interval, text round trips incl. a second write; gff, picardhs, vcf-sites, vcf-simple, seg, interval, text read from generated lines; export-seg -> parse_seg; rangelabel) and sniff_region_format/read('auto') run on tables of 2-3 rows in every input order with symbolic coordinates (0 <= start < end <= 3*10^8) that travel through the real to_csv / split / re / read_csv as unique decimal tokens, with chromosome names from a pool covering the statement's alphabet. z3 proves per path: every row comes back with identical coordinates, names and integer columns; 1-based formats are read to 0-based half-open; rows are sorted by an independent natural-order oracle then start then end; the second write is byte-identical; the detected format is the writer's and its parser yields the same table.",
+        "Trusted: symx interception layer incl. the token <-> proxy mapping around the C parser (read_csv), z3. Float columns carry concrete sample values (their %.6g text is produced by the real to_csv); pysam VCF is C18.",
+        "DESIGN.md 4/C08",
+    ),
     "C14": (
         "The real segfilters.cn/ci/sem/ampdel (squash_by_groups, enumerate_changes, squash_region, weighted_median) run on tables of <= 3 segments (4 thorough) over 1-2 chromosomes with symbolic cn, allele-specific cn, CI bounds, sem, log2, weights (0 reachable), probes and gapped coordinates; the run structure is decided by the solver and per path z3 proves: one output per maximal run of equal level, first start / last end, summed probes and weight, weight-averaged log2 (plain mean at zero weight), no merge across chromosomes, conservation of probes/weight, ampdel keeps only cn = 0 or >= 5. Filter lists (every order, at most one of ci/sem) run through the real do_call with symbolic log2: conservation of probes, weight and per-chromosome span, ordered disjoint outputs, neighbours differ in cn, unique index.",
         "Trusted: symx interception layer incl. the canonical-key groupby patch (hash buckets of pandas are made to respect solver-decided equality), z3. Chain harness uses concrete unequal weights.",
